@@ -61,31 +61,24 @@ def run(ctx, report):
                 elif not any(n.endswith(ENGINE) for n in engine_of(enc.a[1][0])):
                     why = "base64 engine is %s, expected %s" % (engine_of(enc.a[1][0]), ENGINE)
                 else:
-                    # the encoded bytes: fresh buffer filled only by self.encode
+                    # the encoded bytes: alloy_rlp::encode(self), or a fresh buffer filled only by self.encode
+                    from rules.emit import is_encoding_of_self
                     buf = None
+                    bexpr = None
                     for b, t in f.calls():
                         if b.idx == enc.site and t.callee and (t.callee.name, len(t.args)) in (("encode", 2), ("encode_string", 3)):
+                            bexpr = an.operand_expr(t.args[1], b.idx, len(b.stmts))
                             buf = trace_local(an, t.args[1])
                             if buf is not None and f.local_ty(buf).get("k") == "ref":
                                 # the bytes are passed by reference: the buffer is what it points to
                                 tg = an.resolve_ref(buf)
                                 buf = shapes.root_local(an, tg[0]) if tg is not None and tg[1] == [] and tg[2] is False else None
-                    if buf is None:
+                    if bexpr is None:
                         why = "cannot find the encoded buffer"
+                    elif is_encoding_of_self(ctx, f, an, bexpr) or (buf is not None and is_encoding_of_self(ctx, f, an, None, buf)):
+                        ok = True
                     else:
-                        d = shapes.def_expr(an, buf)
-                        muts = shapes.mutations(an, buf)
-                        fresh = d is not None and d.k == "call" and d.a[0].name in ("new", "with_capacity")
-                        good = False
-                        if fresh and len(muts) == 1 and muts[0]["kind"] == "mutcall":
-                            t = muts[0]["term"]
-                            c = t.callee
-                            sa = strip(an.operand_expr(t.args[0], muts[0]["bb"], muts[0]["idx"]))
-                            good = bool(c and c.name == "encode" and (c.trait or "").endswith("alloy_rlp::Encodable") and c.self_ty and c.self_ty.get("adt") == "Enr" and sa.k == "param" and sa.a[0] == 1)
-                        if good:
-                            ok = True
-                        else:
-                            why = "the base64 input is not a fresh buffer filled only by self.encode()"
+                        why = "the base64 input is not a fresh buffer filled only by self.encode()"
             else:
                 why = "text form is %s, expected literal + one argument" % [(p[0], p[1]) for p in pieces]
         report.check("FORM", "to_base64", ok, "to_base64() = \"enr:\" ++ URL_SAFE_NO_PAD(rlp(self))", "to_base64(): " + why, fn=f.path, sp=f.span, config=cfg)
